@@ -11,6 +11,7 @@ import (
 	"fmt"
 	"net/http"
 	"net/http/httptest"
+	"net/url"
 	"regexp"
 	"strings"
 
@@ -216,6 +217,66 @@ func c07LoadedExtras(meta *Meta) {
 					viol("batch:panic", desc, fmt.Sprint(p))
 				} else if (verr == nil) != b.want {
 					viol("batch:request-judged-by-another-requests-operation", desc, fmt.Sprintf("route says %s; expected accepted=%v, got error %v", fs[i].route.Method, b.want, verr))
+				}
+			}
+		}
+	}
+	// a specification of two files, used as loaded and used after InternalizeRefs + writing + reading back: the
+	// parameters in effect are the ones the files declare - a path item taken from another file keeps that file's components
+	{
+		store := map[string]string{
+			"/api/root.json": `{"openapi":"3.0.3","info":{"title":"r","version":"1"},"paths":{"/items":{"$ref":"other.json#/paths/~1items"}},` +
+				`"components":{"parameters":{"Limit":{"name":"limit","in":"query","schema":{"type":"integer","maximum":10}},"Sort":{"name":"sort","in":"query","schema":{"type":"string","enum":["root"]}}}}}`,
+			"/api/other.json": `{"openapi":"3.0.3","info":{"title":"o","version":"1"},"paths":{"/items":{"parameters":[{"$ref":"#/components/parameters/Limit"}],` +
+				`"get":{"parameters":[{"$ref":"#/components/parameters/Sort"}],"responses":{"200":{"description":"ok"}}}}},` +
+				`"components":{"parameters":{"Limit":{"name":"limit","in":"query","required":true,"schema":{"type":"integer","maximum":1000}},"Sort":{"name":"sort","in":"query","schema":{"type":"string","enum":["other"]}}}}}`,
+		}
+		loader := openapi3.NewLoader()
+		loader.IsExternalRefsAllowed = true
+		loader.ReadFromURIFunc = func(_ *openapi3.Loader, u *url.URL) ([]byte, error) {
+			if d, ok := store[u.Path]; ok {
+				return []byte(d), nil
+			}
+			return nil, fmt.Errorf("not found: %s", u)
+		}
+		doc, err := loader.LoadFromURI(&url.URL{Path: "/api/root.json"})
+		if err == nil {
+			stages := map[string]*openapi3.T{"as loaded": doc}
+			var internalised *openapi3.T
+			if p := catchPanic(func() {
+				doc2, err2 := loader.LoadFromURI(&url.URL{Path: "/api/root.json"})
+				if err2 != nil {
+					return
+				}
+				doc2.InternalizeRefs(context.Background(), nil)
+				b, merr := doc2.MarshalJSON()
+				if merr != nil {
+					return
+				}
+				internalised, _ = openapi3.NewLoader().LoadFromData(b)
+			}); p == nil && internalised != nil {
+				stages["internalised, written and read back"] = internalised
+			} else {
+				viol("two-files:internalised-document-does-not-load", map[string]any{"files": []string{"root.json", "other.json"}}, fmt.Sprint(p))
+			}
+			for stage, d := range stages {
+				router, err := gorillamux.NewRouter(d)
+				if err != nil {
+					viol("two-files:router", map[string]any{"stage": stage}, err.Error())
+					continue
+				}
+				for target, want := range map[string]bool{"/items?limit=500": true, "/items": false, "/items?limit=5000": false, "/items?limit=5&sort=other": true, "/items?limit=5&sort=root": false} {
+					req := httptest.NewRequest("GET", target, nil)
+					route, pp, err := router.FindRoute(req)
+					if err != nil {
+						viol("two-files:route", map[string]any{"stage": stage, "target": target}, err.Error())
+						continue
+					}
+					meta.Histogram["two-file specification requests"]++
+					verr := openapi3filter.ValidateRequest(context.Background(), &openapi3filter.RequestValidationInput{Request: req, PathParams: pp, Route: route})
+					if (verr == nil) != want {
+						viol("two-files:request-judged-by-the-other-files-parameter", map[string]any{"stage": stage, "target": target}, fmt.Sprintf("expected accepted=%v, got error %v", want, verr))
+					}
 				}
 			}
 		}
